@@ -3,7 +3,10 @@ E2: linear_fit on every permutation of small integer data sets (enumerated input
 the normal equations (residuals orthogonal to 1 and x) and exact reproduction of linear data.
 E3: Levenberg-Marquardt (curve_fit with finite differences, curve_fit_jac with analytic Jacobian) with a call-counting
 model closure and a hard budget: TLC (Val_C17, module Fit) checks termination, linear-in-parameter models against the
-normal-equation solution computed in TLA+, model-generated data against the true parameters, invalid settings -> Err."""
+normal-equation solution computed in TLA+, model-generated data against the true parameters, invalid settings -> Err.
+E1 + E3 design level: the control skeleton of curve_fit_jac (LmControl: damping search, loop test, which trial point is
+kept, where Err can arise) is model-checked over all verdict sequences and every real run's closure-call blocks are
+validated against it with the verdicts recomputed by TLC from the recorded model values (Trace_Lm)."""
 import itertools
 import math
 import random
@@ -131,7 +134,26 @@ def judge(ctx, groups):
         for r, c in zip(rows, cases):
             if c["variant"] == "linear":
                 r["xs"], r["ys"] = c["xs"], c["ys"]
-        viols = fncommon.validate(ctx, rows, "Val_C17", "fit%d" % gi, nshards=12, env={"VH_KF": KF, "VH_KS": KS}, timeout=1500)
+        slim = [{k: v for k, v in r.items() if k != "blocks"} for r in rows]
+        viols0 = fncommon.validate(ctx, slim, "Val_C17", "fit%d" % gi, nshards=12, env={"VH_KF": KF, "VH_KS": KS}, timeout=1500)
+        viols = viols0
+        # design level (drift, not a violation): the closure-call blocks of the real curve_fit_jac runs against the control
+        # skeleton LmControl, with the verdicts computed by TLC from the recorded model values
+        keys = ("id", "variant", "xs", "ys", "init", "tol", "damping", "st", "params", "blocks")
+        jrows = []
+        for r in rows:
+            if r.get("variant") == "jac":
+                fb = sum(b["n"] for b in r["blocks"] if b["k"] == "f")
+                jrows.append(dict({k: r[k] for k in keys}, blocks_complete=(fb == r["calls"] and len(r["blocks"]) < 800)))
+        if jrows:
+            ndrift = len(ctx.drift)
+            fncommon.validate(ctx, jrows, "Trace_Lm", "dllm%d" % gi, nshards=6, timeout=1500)
+            ctx.traces -= len(jrows)
+            st = [x for x in ctx.notes.get("_stat", []) if x and x[0] == "lm_runs_explained"]
+            ctx.notes["_stat"] = [x for x in ctx.notes.get("_stat", []) if not (x and x[0] == "lm_runs_explained")]
+            for key, v in (("validated_against_design", sum(1 for r in jrows if r["blocks_complete"] and r["st"] in ("ok", "err"))),
+                           ("explained", sum(x[1] for x in st)), ("drifted", len(ctx.drift) - ndrift)):
+                ctx.notes["curve_fit_jac_runs_%s" % key] = ctx.notes.get("curve_fit_jac_runs_%s" % key, 0) + v
         for c in cases:
             ctx.count_case(brief(c), c["variant"] == "linear" and len(c["xs"]) >= 3 or c.get("v", 0) >= 2)
         for c in cases[:: max(1, len(cases) // 2)][:2]:
@@ -145,6 +167,7 @@ def judge(ctx, groups):
 
 def run(ctx):
     rng = random.Random(ctx.seed)
+    ctx.add_tlc(vlib.tlc("MC_LmControl", workers=2, timeout=300, deque=False), e1=True)
     lin = linear_cases(ctx, rng)
     lm = lm_cases(ctx, rng, 500 if ctx.tier == "quick" else 5000)
     judge(ctx, [lin, lm])
